@@ -1,1 +1,209 @@
-/-! Property theorems for C05 (see /verif/DESIGN.md). Only property theorems and non-vacuity examples live here. -/
+import GoawkModel.C05
+import GoawkModel.C05Cmp
+import Proofs.C05Value
+import Proofs.C05Tables
+import Proofs.C05Scan
+/-!
+# C05 — number/string conversion and comparison typing follow the AWK value model
+
+Theorems over the model `GoawkModel.C05` (mirror of `interp/value.go` and of the comparison opcodes of `interp/vm.go`) and
+over the tables regenerated from `compiler.go` / `vm.go` on every run (`GoawkModel.Generated.C05Cmp`).
+All statements quantify over every value, every byte string and every behaviour of `strconv` (`sc`) and of the
+CONVFMT/OFMT formatter (`fmt`): nothing here depends on floating-point rounding.
+-/
+namespace GoawkModel.C05.Props
+open GoawkModel GoawkModel.C05
+
+/-! ## comparison mode -/
+
+/-- a number, an unset variable, or input-derived text that looks entirely like a number -/
+def numLike (sc : Strconv Num) : Val → Prop
+  | .null => True
+  | .num _ => True
+  | .str _ => False
+  | .numstr s => (scanWhole sc.ovf s).isSome = true
+
+/-- two values compare numerically exactly when each is number-like, and as strings otherwise -/
+theorem mode_exact (sc : Strconv Num) (l r : Val) :
+    cmpMode sc l r = .numeric ↔ (numLike sc l ∧ numLike sc r) := by
+  unfold cmpMode
+  cases l <;> cases r <;> simp [isTrueStr, numLike] <;>
+    (try cases scanWhole sc.ovf _) <;> simp <;> (try cases scanWhole sc.ovf _) <;> simp
+
+example : cmpMode ⟨fun _ => .zero, fun _ => false⟩ (.numstr [32, 49, 48]) (.num (.ofInt 9)) = .numeric := by decide
+example : cmpMode ⟨fun _ => .zero, fun _ => false⟩ (.numstr [49, 120]) (.num (.ofInt 9)) = .string := by decide
+
+/-- in numeric mode the comparison is the IEEE comparison of the two numbers, in string mode the bytewise comparison
+of the two strings — for each of the six operators -/
+theorem compare_by_mode (sc : Strconv Num) (fmt : Num → Bytes) (op : CmpOp) (l r : Val) :
+    compareWith sc fmt op op l r =
+      match cmpMode sc l r with
+      | .numeric => op.ofNum (((isTrueStr sc l).getD .zero).ord ((isTrueStr sc r).getD .zero))
+      | .string => op.ofOrdering (bytesCmp (toStr fmt l) (toStr fmt r)) := by
+  unfold compareWith cmpMode
+  cases isTrueStr sc l <;> cases isTrueStr sc r <;> rfl
+
+/-! ## the six operators are mutually consistent -/
+
+/-- a NaN takes part in a numeric comparison -/
+def nanInvolved (sc : Strconv Num) (l r : Val) : Prop :=
+  ∃ ln rn, isTrueStr sc l = some ln ∧ isTrueStr sc r = some rn ∧ (ln = .nan ∨ rn = .nan)
+
+/-- `a != b` iff not `a == b`; `a < b` iff `b > a`; `a <= b` iff `b >= a`; `a == b` iff `b == a` — for all values,
+both modes, NaN included -/
+theorem cmp_consistent_all (sc : Strconv Num) (fmt : Num → Bytes) (l r : Val) :
+    compareWith sc fmt .ne .ne l r = (!compareWith sc fmt .eq .eq l r) ∧
+    compareWith sc fmt .lt .lt l r = compareWith sc fmt .gt .gt r l ∧
+    compareWith sc fmt .le .le l r = compareWith sc fmt .ge .ge r l ∧
+    compareWith sc fmt .eq .eq l r = compareWith sc fmt .eq .eq r l := by
+  refine ⟨compareWith_ne sc fmt l r, ?_, ?_, ?_⟩ <;>
+  · unfold compareWith
+    cases isTrueStr sc l with
+    | none =>
+      cases isTrueStr sc r <;> simp only [] <;> rw [bytesCmp_swap (toStr fmt l) (toStr fmt r)] <;>
+        cases bytesCmp (toStr fmt l) (toStr fmt r) <;> rfl
+    | some ln =>
+      cases isTrueStr sc r with
+      | none =>
+        simp only []; rw [bytesCmp_swap (toStr fmt l) (toStr fmt r)]
+        cases bytesCmp (toStr fmt l) (toStr fmt r) <;> rfl
+      | some rn =>
+        simp only []; rw [Num.ord_swap ln rn]
+        cases ln.ord rn with
+        | none => rfl
+        | some o => cases o <;> rfl
+
+/-- for non-NaN operands exactly one of `<`, `==`, `>` holds, `a <= b` iff not `a > b`, `a >= b` iff not `a < b` -/
+theorem cmp_consistent (sc : Strconv Num) (fmt : Num → Bytes) (l r : Val) (h : ¬ nanInvolved sc l r) :
+    exactlyOne (compareWith sc fmt .lt .lt l r) (compareWith sc fmt .eq .eq l r) (compareWith sc fmt .gt .gt l r) = true ∧
+    compareWith sc fmt .le .le l r = (!compareWith sc fmt .gt .gt l r) ∧
+    compareWith sc fmt .ge .ge l r = (!compareWith sc fmt .lt .lt l r) := by
+  unfold compareWith
+  cases hl : isTrueStr sc l with
+  | none => cases isTrueStr sc r <;> simp [ofOrdering_trichotomy, ofOrdering_le, ofOrdering_ge]
+  | some ln =>
+    cases hr : isTrueStr sc r with
+    | none => simp [ofOrdering_trichotomy, ofOrdering_le, ofOrdering_ge]
+    | some rn =>
+      cases ho : ln.ord rn with
+      | none =>
+        exfalso; apply h
+        exact ⟨ln, rn, hl, hr, (Num.ord_none_iff ln rn).mp ho⟩
+      | some o => simp only [CmpOp.ofNum, ho]; cases o <;> decide
+
+example : ¬ nanInvolved ⟨fun _ => .zero, fun _ => false⟩ (.str [97]) (.num .nan) := by
+  rintro ⟨ln, rn, h, _⟩; simp [isTrueStr] at h
+
+/-- the hypothesis of `cmp_consistent` is needed: with a NaN none of `<`, `==`, `>` holds (so `<=` is not `!(>)`) -/
+theorem cmp_nan_all_false (sc : Strconv Num) (fmt : Num → Bytes) (x : Num) :
+    compareWith sc fmt .lt .lt (.num .nan) (.num x) = false ∧ compareWith sc fmt .eq .eq (.num .nan) (.num x) = false ∧
+    compareWith sc fmt .gt .gt (.num .nan) (.num x) = false ∧ compareWith sc fmt .le .le (.num .nan) (.num x) = false := by
+  simp [compareWith, isTrueStr, Num.ord, CmpOp.ofNum]
+
+/-! ## fused jumps (over the tables regenerated from compiler.go and vm.go) -/
+
+/-- the value of the expression `l tok r` is the comparison the token stands for (the opcode `binaryOp` selects, as
+executed by vm.go, uses that operator in string mode and in numeric mode) -/
+theorem unfused_correct (sc : Strconv Num) (fmt : Num → Bytes) (tok : String) (op : CmpOp) (h : tokOp tok = some op)
+    (l r : Val) : exprValue sc fmt tok l r = some (compareWith sc fmt op op l r) :=
+  exprValue_spec sc fmt tok op h l r
+
+/-- each conditional jump that `condition()` emits for a comparison — fused jump opcode, or for inverted ordering
+comparisons the unfused expression followed by `JumpFalse` — is taken iff the expression's value is true (not inverted) /
+false (inverted); NaN operands included -/
+theorem fused_eq_unfused (sc : Strconv Num) (fmt : Num → Bytes) (tok : String) (op : CmpOp) (h : tokOp tok = some op)
+    (invert : Bool) (l r : Val) :
+    condJumps sc fmt tok invert l r = (exprValue sc fmt tok l r).map fun b => invert != b := by
+  rw [condJumps_spec sc fmt tok op h, exprValue_spec sc fmt tok op h]; rfl
+
+example : tokOp "LTE" = some .le := rfl
+
+/-- the generated facts are the ones the model was written against (case bodies of the twelve opcodes with the operators
+masked, `JumpTrue`/`JumpFalse`/`Not`/`Boolean`, `jumpOp`, the byte predicates and the blank table of value.go) -/
+theorem gen_matches :
+    Generated.C05Cmp.vmBodies = expectedBodies ∧
+    (∀ c : UInt8, isAsciiSpace c = Generated.C05Cmp.asciiSpaceBytes.contains c.toNat) :=
+  ⟨gen_matches_bodies, gen_matches_space⟩
+
+theorem gen_matches_sources :
+    Generated.C05Cmp.vmBodyJumpTrue = "offset := code[ip] ; ip++ ; v := p.pop() ; if v.boolean() { ip += int(offset) }" ∧
+    Generated.C05Cmp.vmBodyJumpFalse = "offset := code[ip] ; ip++ ; v := p.pop() ; if !v.boolean() { ip += int(offset) }" ∧
+    Generated.C05Cmp.condJumpOpSrc = "func(normal, inverted Opcode) Opcode { if invert { return inverted } return normal }" ∧
+    Generated.C05Cmp.condFallback = ("JumpTrue", "JumpFalse", "expr") ∧
+    Generated.C05Cmp.src_isDigit = "{ return c >= '0' && c <= '9' }" :=
+  ⟨gen_matches_jumps.1, gen_matches_jumps.2.1, gen_matches_jumps.2.2.2.2.1, gen_matches_jumps.2.2.2.2.2.1, gen_matches_value.2.2.2.1⟩
+
+/-! ## the two string → number routines agree -/
+
+/-- whenever `parseFloat` accepts a string — so that the value is compared and truth-tested as a number —
+`parseFloatPrefix` (arithmetic) yields the same special value or hands exactly the same text to `strconv.ParseFloat`:
+optional ASCII blanks, sign, decimal and hexadecimal forms with and without exponent (`p0` appended by both), `inf`,
+`infinity`, `nan`, `+nan`; for every string and every range-error behaviour of `strconv` -/
+theorem whole_prefix_agree (ovf : Bytes → Bool) (s : Bytes) (r : Res) (h : scanWhole ovf s = some r) :
+    scanPrefix s = r :=
+  whole_prefix_agree' ovf s r h
+
+example : scanWhole (fun _ => false) [32, 43, 48, 120, 49, 46, 56, 9] = some (.conv [43, 48, 120, 49, 46, 56, 112, 48]) := by decide
+example : scanWhole (fun _ => false) [45, 73, 110, 102, 105, 110, 105, 116, 121] = some (.inf true) := by decide
+example : scanWhole (fun _ => false) [49, 101, 53, 32] = some (.conv [49, 101, 53]) := by decide
+
+/-- the number a numeric-looking input string stands for is the same in comparisons (`isTrueStr`), truth tests
+(`boolean`) and arithmetic (`num`) -/
+theorem same_number (sc : Strconv Num) (s : Bytes) (n : Num) (h : isTrueStr sc (.numstr s) = some n) :
+    toNum sc (.numstr s) = n ∧ toBool sc (.numstr s) = n.nonzero := by
+  simp only [isTrueStr] at h
+  cases hw : scanWhole sc.ovf s with
+  | none => simp [hw] at h
+  | some r =>
+    simp [hw] at h
+    simp [toNum, toBool, hw, whole_prefix_agree sc.ovf s r hw, h]
+
+/-! ## truth test -/
+
+/-- the truth value of input-derived text: its number (≠ 0) when it looks entirely like a number, else non-emptiness -/
+theorem bool_agree (sc : Strconv Num) (s : Bytes) :
+    toBool sc (.numstr s) =
+      match isTrueStr sc (.numstr s) with
+      | some n => n.nonzero
+      | none => !s.isEmpty := by
+  simp only [toBool, isTrueStr]
+  cases scanWhole sc.ovf s <;> rfl
+
+/-! ## number → string -/
+
+/-- an integral number within the signed 64-bit range converts to a string as the exact integer, any other finite
+number through the format (CONVFMT, or OFMT in print); `k` ranges over all integers, the value is `k · 2^-1074` -/
+theorem int_to_str (fmt : Num → Bytes) (k : Int) :
+    numToStr fmt (.fin k) =
+      if scale ∣ k ∧ -(2 ^ 63) * scale ≤ k ∧ k < 2 ^ 63 * scale then decimal (k / scale) else fmt (.fin k) := by
+  show (if Num.fin k = Num.ofInt (toInt64 k) then decimal (toInt64 k) else fmt (.fin k)) = _
+  by_cases h : scale ∣ k ∧ -(2 ^ 63) * scale ≤ k ∧ k < 2 ^ 63 * scale
+  · rw [if_pos ((fin_eq_ofInt_toInt64 k).mpr h), if_pos h]
+    congr 1
+    obtain ⟨⟨c, hc⟩, hlo, hhi⟩ := h
+    have hne : scale ≠ 0 := by have := scale_pos; omega
+    have h1 : k.tdiv scale = c := by rw [hc]; exact Int.mul_tdiv_cancel_left c hne
+    have h2 : k / scale = c := by rw [hc]; exact Int.mul_ediv_cancel_left c hne
+    have hin : -(2 ^ 63) ≤ c ∧ c < 2 ^ 63 := by
+      have := (fin_eq_ofInt_toInt64 k).mpr ⟨⟨c, hc⟩, hlo, hhi⟩
+      simp only [Num.ofInt, Num.fin.injEq, toInt64, h1] at this
+      by_cases hr : -(2 ^ 63) ≤ c ∧ c < 2 ^ 63
+      · exact hr
+      · rw [if_neg hr] at this
+        have : c = -(2 ^ 63) := by
+          have h3 : scale * c = scale * -(2 ^ 63) := by rw [← hc, this, Int.mul_comm]
+          exact Int.eq_of_mul_eq_mul_left hne h3
+        rw [this]; constructor <;> decide
+    simp only [toInt64, h1, h2, if_pos hin]
+  · rw [if_neg (fun h' => h ((fin_eq_ofInt_toInt64 k).mp h')), if_neg h]
+
+example : numToStr (fun _ => []) (.ofInt 42) = [52, 50] := by
+  have : (42 : Int) * scale / scale = 42 := Int.mul_ediv_cancel 42 (by have := scale_pos; omega)
+  rw [Num.ofInt, int_to_str, if_pos, this]; · rfl
+  refine ⟨⟨42, Int.mul_comm _ _⟩, ?_, ?_⟩ <;> (have := scale_pos; omega)
+
+theorem nonfinite_to_str (fmt : Num → Bytes) :
+    numToStr fmt .nan = [110, 97, 110] ∧ numToStr fmt .pinf = [105, 110, 102] ∧
+    numToStr fmt .ninf = [45, 105, 110, 102] := ⟨rfl, rfl, rfl⟩
+
+end GoawkModel.C05.Props
